@@ -336,3 +336,39 @@ package martian
 //@   serves C04
 //@   modifies eofSignalN
 //@   ensures[end-of-stream-propagated-to-the-peer] eofSignalN == old(eofSignalN) + 1
+
+// ---------------------------------------------------------------------------------------------
+// MultiError (C13): a flat, ordered collection of errors guarded by its mutex.
+
+//@ guarded_by MultiError.errs mu C13
+//@ pred merrIdle(m *MultiError) = m != nil && !m.mu.wheld && m.mu.rheld == 0
+//@ pred flat(m *MultiError) = forall i int :: 0 <= i && i < len(m.errs) ==> !typeis(m.errs[i], *MultiError)
+//@ pred errCount(e error) = ite(e == nil, 0, ite(typeis(e, *MultiError), len(as(e, *MultiError).errs), 1))
+
+//@ func NewMultiError
+//@   serves C13
+//@   modifies nothing
+//@   ensures[empty-and-fresh] result != nil && fresh(result) && len(result.errs) == 0 && merrIdle(result)
+
+//@ func (*MultiError).Errors
+//@   serves C13
+//@   requires merrIdle(merr)
+//@   modifies merr.mu.rheld
+//@   ensures result == merr.errs && merrIdle(merr)
+
+//@ func (*MultiError).Empty
+//@   serves C13
+//@   requires merrIdle(merr)
+//@   modifies merr.mu.rheld
+//@   ensures[empty-iff-no-errors] result == (len(merr.errs) == 0) && merrIdle(merr)
+
+//@ func (*MultiError).Add
+//@   serves C13
+//@   requires merrIdle(merr) && flat(merr) && err != nil
+//@   requires typeis(err, *MultiError) ==> merrIdle(as(err, *MultiError)) && flat(as(err, *MultiError)) && as(err, *MultiError) != merr
+//@   modifies merr.errs, merr.mu.wheld, sync.RWMutex.rheld, merr.errs[*]
+//@   ensures[lock-released] merrIdle(merr)
+//@   ensures[flattened-count] len(merr.errs) == old(len(merr.errs)) + old(errCount(err))
+//@   ensures[depth-never-exceeds-one] !typeis(err, *MultiError) ==> flat(merr)
+//@   ensures[earlier-errors-kept-in-order] forall i int :: 0 <= i && i < old(len(merr.errs)) ==> merr.errs[i] == old(merr.errs[i])
+//@   ensures[single-error-appended-last] !typeis(err, *MultiError) ==> merr.errs[old(len(merr.errs))] == err
